@@ -359,22 +359,6 @@ def history(ctx: Any) -> List[Ob]:
     h = prog.func('zeroconf._history.QuestionHistory.suppresses')
     k = prog.const('zeroconf.const', '_DUPLICATE_QUESTION_INTERVAL')
     obs.append(ob(R, h, f'_DUPLICATE_QUESTION_INTERVAL = {k}', 'the suppression window is 999 ms', k == 999))
-    cfgh = cfg_of(h.node)
-    ok_w = ok_k = False
-    for t in cfgh.nodes:
-        if t.kind != 'test':
-            continue
-        if isinstance(t.ast, ast.Compare):
-            try:
-                p, op = lf.comparison(prog, h.module, t.ast, lambda x: ('NOW' if isinstance(x, ast.Name) and x.id == h.params[2] else ('THEN' if isinstance(x, ast.Name) else None)))
-                if lf.same_cmp((p, op), lf.parse_cmp('999 - NOW + THEN < 0')):
-                    ok_w = all(s.kind == 'return' and norm(s.ast.value) == 'False' for s, lab in t.succ if lab is True)
-            except lf.NotLinear:
-                pass
-        if isinstance(t.ast, ast.BinOp) and isinstance(t.ast.op, ast.Sub) and norm(t.ast.right) == h.params[3]:
-            ok_k = all(s.kind == 'return' and norm(s.ast.value) == 'False' for s, lab in t.succ if lab is True)
-    obs.append(ob(R, h, 'if now - than > _DUPLICATE_QUESTION_INTERVAL: return False', 'a question asked more than 999 ms ago does not suppress', ok_w))
-    obs.append(ob(R, h, 'if previous_known_answers - known_answers: return False', 'a previous question whose known answers contained something we do not know does not suppress', ok_k))
     # the whole decision of `suppresses` as a table: suppressed iff the question was recorded, not more than 999 ms ago, with
     # known answers that are all among ours
     hme = h.params[0]
